@@ -210,7 +210,7 @@ fn explore(ctx: &mut Ctx) {
     let copy_chains = chains(false);
     ctx.count_max("max_from_chains", from_chains.len() as u64);
     ctx.count_max("max_copy_chains", copy_chains.len() as u64);
-    let n = ctx.tier.pick(10, 14);
+    let n = ctx.tier.pick(10, 18);
     let mut all_bits: Vec<BitsDesc> = Vec::new();
     for len in 0..=n {
         for word in 0..(1u64 << len) {
